@@ -261,6 +261,42 @@ func c32(p *an.Prog, r *an.R, tier string) {
 					isRetire = true
 				}
 			}
+			if !isRetire {
+				// a helper that is handed the candidate map and the trash directory and moves shards there
+				an.Inspect(g.Node(l), false, func(m ast.Node) bool {
+					c, ok := m.(*ast.CallExpr)
+					if !ok {
+						return true
+					}
+					h := an.Callee(info, c)
+					if h == nil || h.Pkg() != f.Pkg() || h == moveAll {
+						return true
+					}
+					hd := p.Decl(h)
+					if hd == nil || hd.Decl.Body == nil {
+						return true
+					}
+					var trashP types.Object
+					takesCandidates := false
+					for i, a := range c.Args {
+						if an.UsesObj(info, a, trashDir) {
+							trashP = an.Param(info, hd.Decl, i)
+						}
+						if an.UsesObj(info, a, idxShards) {
+							takesCandidates = true
+						}
+					}
+					if trashP == nil || !takesCandidates {
+						return true
+					}
+					for _, mc := range an.CallsTo(info, hd.Decl.Body, false, moveAll) {
+						if an.UsesObj(info, mc.Args[0], trashP) {
+							isRetire = true
+						}
+					}
+					return true
+				})
+			}
 			if !isRetire && len(an.CallsTo(info, g.Node(l), false, maybeTomb)) > 0 && retireLoop != nil && retireLoop.Pos() <= g.Node(l).Pos() && g.Node(l).End() <= retireLoop.End() {
 				isRetire = true // tombstoning in the loop that retires unassigned repositories
 			}
@@ -271,7 +307,7 @@ func c32(p *an.Prog, r *an.R, tier string) {
 			skip := g.Reach(g.Entry(), false, &an.Search{Target: func(k an.Loc) bool { return k == l }, Cut: isHead})
 			r.Check(!skip, "C32.R2", isrv+".cleanup/"+c32Kind(info, g.Node(l), maybeTomb)+"/after-assigned-repositories-were-excluded", g.Node(l).Pos(), "shards are moved to the trash only after the assigned repositories were removed from the candidate set", "shards can be moved to the trash before (or without) the assigned repositories having been taken out of the candidate set: an assigned repository disappears from the index")
 		}
-		r.Floor("C32.R2.trash-moves", 2, n)
+		r.Floor("C32.R2.trash-moves", 1, n)
 	}
 }
 
